@@ -248,7 +248,76 @@ def summaries(world):
             return x.e.cval() & (M64 - 1)
         return x.e
 
-    S = {'__gmpz_init': init, '__gmpz_init_set_ui': init_set_ui, '__gmpz_init_set_si': init_set_si, '__gmpz_init_set_str': init_set_str,
+    def fits(lo, hi):
+        def f(I, a, ins):
+            x = W.get(a[0])
+            if x.lo >= lo and x.hi <= hi:
+                return 1
+            if x.hi < lo or x.lo > hi:
+                return 0
+            # three-way position of x relative to the window [lo, hi]
+            out = W.decide(('fits', x.e.key(), lo, hi), ['below', 'in', 'above'] if x.lo < lo and x.hi > hi else (['below', 'in'] if x.lo < lo else ['in', 'above']))
+            if out == 'in':
+                W.refine_sym(x.e, lo=lo, hi=hi)
+                W.trace.append('%d <= %s <= %d' % (lo, x.e, hi))
+                return 1
+            if out == 'below':
+                W.refine_sym(x.e, hi=lo - 1)
+                W.trace.append('%s < %d' % (x.e, lo))
+            else:
+                W.refine_sym(x.e, lo=hi + 1)
+                W.trace.append('%s > %d' % (x.e, hi))
+            return 0
+        return f
+
+    def rem_ui(kind):
+        # mpz_tdiv_ui / mpz_fdiv_ui / mpz_cdiv_ui return the ABSOLUTE VALUE of the remainder as an unsigned long;
+        # the remainder itself is truncating (sign of the dividend), floor (non-negative) or ceiling (non-positive)
+        def f(I, a, ins):
+            n = W.get(a[0])
+            d = a[1]
+            if not isinstance(d, int) or d == 0:
+                raise Incomplete('mpz_%sdiv_ui with a symbolic or zero divisor' % kind)
+            sign = 1 if n.lo >= 0 else (-1 if n.hi <= 0 else None)
+            if sign is None:
+                out = W.decide(('sign', n.e.key()), [-1, 1])
+                if out == 1:
+                    W.refine_sym(n.e, lo=0)
+                else:
+                    W.refine_sym(n.e, hi=-1)
+                W.trace.append('%s %s' % (n.e, '>= 0' if out == 1 else '< 0'))
+                sign = out
+            W.nsym += 1
+            r = 'R%d' % W.nsym
+            W.bounds[r] = (0, d - 1)
+            if d == P:
+                base = W.residue(n.e)
+                if kind == 't':
+                    W.resid[r] = base if sign == 1 else (-base).modp()     # |n rem d|
+                elif kind == 'f':
+                    W.resid[r] = base                                      # n mod d, already non-negative
+                else:
+                    W.resid[r] = (-base).modp()                            # |ceiling remainder| = (-n) mod d
+            return Poly.var(r)
+        return f
+
+    def fdiv_r_ui(I, a, ins):
+        n = W.get(a[1])
+        d = a[2]
+        if not isinstance(d, int) or d == 0:
+            raise Incomplete('mpz_fdiv_r_ui with a symbolic or zero divisor')
+        W.nsym += 1
+        r = 'R%d' % W.nsym
+        W.bounds[r] = (0, d - 1)
+        if d == P:
+            W.resid[r] = W.residue(n.e)
+        W.setv(a[0], AZ(Poly.var(r), 0, d - 1))
+        return Poly.var(r)
+
+    S = {'__gmpz_fits_slong_p': fits(-(1 << 63), (1 << 63) - 1), '__gmpz_fits_ulong_p': fits(0, (1 << 64) - 1),
+         '__gmpz_fits_sint_p': fits(-(1 << 31), (1 << 31) - 1), '__gmpz_fits_uint_p': fits(0, (1 << 32) - 1),
+         '__gmpz_tdiv_ui': rem_ui('t'), '__gmpz_fdiv_ui': rem_ui('f'), '__gmpz_cdiv_ui': rem_ui('c'), '__gmpz_fdiv_r_ui': fdiv_r_ui,
+         '__gmpz_init': init, '__gmpz_init_set_ui': init_set_ui, '__gmpz_init_set_si': init_set_si, '__gmpz_init_set_str': init_set_str,
          '__gmpz_set': set_, '__gmpz_clear': clear, '__gmpz_add_ui': add_ui, '__gmpz_ui_sub': ui_sub, '__gmpz_neg': neg,
          '__gmpz_tdiv_r_ui': tdiv_r_ui, '__gmpz_cmp_si': cmp_si, '__gmpz_cmp_ui': cmp_ui, '__gmpz_cmp': cmp,
          '__gmpz_get_ui': get_ui, '__gmpz_get_si': get_si}
